@@ -38,14 +38,22 @@ K = 4.148808e3
 
 
 def bounds(tier: str) -> dict:
-    return {"bands": BANDS, "nsamps": NS, "dms": DMS, "gulps": [1, 5, 7, NS, 10 * NS]}
+    return {"bands": BANDS, "nsamps": [NS] if tier == "quick" else [NS, 37], "dms": DMS if tier == "quick" else "DM sets x {0.5, 0.75, 1, 1.5}",
+            "gulps": "1, 5, 7, N, 10N"}
 
 
 def shards(tier: str, seed: int) -> list:
     out = [{"kind": "table", "band": b} for b in range(len(BANDS))]
     for b in range(len(BANDS)):
         for dm in DMS[b]:
-            out.append({"kind": "paths", "band": b, "dm": dm})
+            out.append({"kind": "paths", "band": b, "dm": dm, "ns": NS})
+        if tier == "thorough":
+            # a second, odd block length and a finer DM grid
+            extra = sorted({round(x * f, 3) for x in DMS[b] for f in (0.5, 0.75, 1.5)} - set(DMS[b]))
+            for dm in extra:
+                out.append({"kind": "paths", "band": b, "dm": dm, "ns": NS})
+            for dm in [*DMS[b], *extra]:
+                out.append({"kind": "paths", "band": b, "dm": dm, "ns": 37})
     return out
 
 
@@ -154,9 +162,9 @@ def _paths(wd, shard, ctx, res, only):
 
     band, dm = shard["band"], shard["dm"]
     fch1, foff, C, tsamp = BANDS[band]
-    X, fil = _hdr(wd, band, seed=ctx.seed)
+    n = int(shard.get("ns", NS))
+    X, fil = _hdr(wd, band, nsamps=n, seed=ctx.seed)
     H = fil.header
-    n = NS
     Xf = X.astype(np.float64)
     blk = fil.read_block(0, n)
 
@@ -318,7 +326,7 @@ def _paths(wd, shard, ctx, res, only):
             P = np.zeros((n, C), dtype=np.float32)
             for c in range(C):
                 P[tp + d[c], c] = 1.0
-            pp = fx.make_fileset(wd, P, 32, [n], fch1=fch1, foff=foff, tsamp=tsamp, stem=f"p{band}_{dm}_")
+            pp = fx.make_fileset(wd, P, 32, [n], fch1=fch1, foff=foff, tsamp=tsamp, stem=f"p{band}_{dm}_{n}_")
             from sigpyproc.readers import FilReader
 
             pf = FilReader(pp)
